@@ -1,5 +1,7 @@
 import J5V.Go.Hex
 import J5V.Compile.Link
+import J5V.Compile.Evolve
+import J5V.Compile.PackageSet
 /-!
 # Line protocol of the compile cluster: s-expressions ⇄ model types (core only)
 
@@ -263,6 +265,65 @@ def dBundle : Sexp → Option Bundle
       | .list (.atom "pkg" :: n :: files) => do some ({ name := ← dStr n, files := ← files.mapM dFile } : Pkg)
       | _ => none
     some { pkgs := pkgs }
+  | _ => none
+
+/-! ## edits and variants -/
+
+def dStep : Sexp → Option PStep
+  | .list [.atom "el", i] => (dNat i).map .el
+  | .list [.atom "prop", i] => (dNat i).map .prop
+  | .list [.atom "nest", i] => (dNat i).map .nest
+  | .list [.atom "method", i] => (dNat i).map .method
+  | .list [.atom "req"] => some .req
+  | .list [.atom "res"] => some .res
+  | .list [.atom "msg", i] => (dNat i).map .msg
+  | .list [.atom "reqm", i] => (dNat i).map .reqm
+  | .list [.atom "repm", i] => (dNat i).map .repm
+  | .list [.atom "edata"] => some .edata
+  | .list [.atom "estatus"] => some .estatus
+  | .list [.atom "event", i] => (dNat i).map .event
+  | .list [.atom "command", i] => (dNat i).map .command
+  | .list [.atom "summary", i] => (dNat i).map .summary
+  | _ => none
+
+def dPath : Sexp → Option (List PStep)
+  | .list (.atom "path" :: steps) => if steps.isEmpty then none else steps.mapM dStep
+  | _ => none
+
+def dEdits : Sexp → Option (List Edit)
+  | .list (.atom "edits" :: es) => es.mapM fun e =>
+    match e with
+    | .list [.atom "appendfield", f, p, prop] => do
+      some (.appendField (← dNat f) (← dPath p) (← dProp prop))
+    | .list [.atom "appendoption", f, p, n] => do
+      some (.appendOption (← dNat f) (← dPath p) (← dStr n))
+    | .list [.atom "appenddecl", f, el] => do some (.appendDecl (← dNat f) (← dElem el))
+    | _ => none
+  | _ => none
+
+structure Variant where
+  pkgs : List Nat
+  files : List (Nat × List Nat)
+  calls : List Nat
+  reuse : Bool
+
+def dVariant (b : Bundle) : Sexp → Option Variant
+  | .list [.atom "variant", .list (.atom "pkgs" :: ps), .list (.atom "files" :: fos),
+      .list (.atom "calls" :: cs), reuse] => do
+    let pkgs ← ps.mapM dNat
+    if !isPermOf pkgs b.pkgs.length then none
+    let files ← fos.mapM fun fo =>
+      match fo with
+      | .list (.atom "fo" :: pi :: perm) => do
+        let pi ← dNat pi
+        let perm ← perm.mapM dNat
+        let p ← b.pkgs[pi]?
+        if !isPermOf perm p.files.length then none
+        some (pi, perm)
+      | _ => none
+    let calls ← cs.mapM dNat
+    if calls.any (· ≥ b.pkgs.length) then none
+    some { pkgs := pkgs, files := files, calls := calls, reuse := ← dBool reuse }
   | _ => none
 
 /-! ## printing the canonical skeleton (strings raw) -/
